@@ -95,6 +95,7 @@ func cmdCheck(argv []string) int {
 	timeoutS := 10
 	if *tier == "thorough" {
 		timeoutS = 60
+		crossCheck = true
 	}
 	if *timeoutFlag > 0 {
 		timeoutS = *timeoutFlag
@@ -289,6 +290,12 @@ func cmdCheck(argv []string) int {
 	kinds := map[string]int{}
 	covers := map[string]int{}
 	retCov := map[string][]*Obligation{}
+	basicTwin := map[string]*Obligation{}
+	for _, o := range allObls {
+		if o.Kind == "cover" && strings.HasSuffix(o.Name, " (basic)") {
+			basicTwin[strings.TrimSuffix(o.Name, " (basic)")] = o
+		}
+	}
 	for _, o := range allObls {
 		if o.Kind == "cover" {
 			// expectation inverted: unsat = vacuous
@@ -296,6 +303,16 @@ func cmdCheck(argv []string) int {
 			if strings.HasSuffix(o.Name, ":cover:entry") {
 				if o.Status == "unsat" {
 					o.Output = "VACUOUS: assumptions at function entry are contradictory\n" + o.Output
+					failed = append(failed, o)
+				}
+			} else if strings.Contains(o.Name, ":cover:back ") {
+				if o.Status == "unsat" && !strings.HasSuffix(o.Name, " (basic)") {
+					// dead in the model of the code and the libraries alone (e.g. the no-case-matched edge of an
+					// exhaustive type switch)? then nothing was assumed to make it unreachable
+					if b := basicTwin[o.Name]; b != nil && b.Status == "unsat" {
+						continue
+					}
+					o.Output = "VACUOUS: the path to this loop back edge is unreachable under the accumulated assumptions (contradictory invariant, lemma or model); the invariant step was proved for nothing\n" + o.Output
 					failed = append(failed, o)
 				}
 			} else {
@@ -470,6 +487,8 @@ func cmdCheck(argv []string) int {
 			"solver_time_max_s":   maxTime,
 			"per_obligation_timeout_s": timeoutS,
 			"vacuity_covers":      covers,
+			"cross_checked":       crossStats(allObls),
+			"slowest_obligations": slowest(allObls, 8),
 			"known_findings_hit":  knownHit,
 			"violations":          violations,
 			"bounded":             []string{},
@@ -539,7 +558,7 @@ func (c *FnCtx) coverObligations() []*Obligation {
 	ts := c.eng.ts
 	fname := c.top.RelString(c.top.Pkg.Pkg)
 	o := &Obligation{Name: fname + ":cover:entry", Kind: "cover", Func: fname, Goal: ts.Bool(false), NFacts: c.entryFacts, Ctx: c, Src: "requires ∧ package invariant satisfiable"}
-	return append([]*Obligation{o}, c.retCovers...)
+	return append(append([]*Obligation{o}, c.retCovers...), c.backCovers...)
 }
 
 var _ = ssa.NaiveForm
@@ -615,4 +634,41 @@ func cmdReplay(args []string) {
 		out := runReplayTest(c, repo, scratch, t)
 		fmt.Println(firstLines(grepLines(out, "VERIF-REPLAY|panic|FAIL|^ok|PASS"), 30))
 	}
+}
+
+
+// crossStats: thorough tier — how many discharged obligations were confirmed by the other solver family.
+func crossStats(obls []*Obligation) map[string]int {
+	out := map[string]int{}
+	for _, o := range obls {
+		if o.Kind == "cover" || o.Status != "unsat" || o.CrossChecked == "" {
+			continue
+		}
+		k := "confirmed"
+		if strings.HasPrefix(o.CrossChecked, "not confirmed") {
+			k = "second solver gave no answer within 8 s"
+		}
+		out[k]++
+	}
+	return out
+}
+
+
+// slowest: the obligations with the largest solver time (for keeping the quick tier well inside its limits).
+func slowest(obls []*Obligation, n int) []map[string]interface{} {
+	var l []*Obligation
+	for _, o := range obls {
+		if o.Time > 0 {
+			l = append(l, o)
+		}
+	}
+	sort.Slice(l, func(i, j int) bool { return l[i].Time > l[j].Time })
+	if len(l) > n {
+		l = l[:n]
+	}
+	var out []map[string]interface{}
+	for _, o := range l {
+		out = append(out, map[string]interface{}{"obligation": o.Name, "seconds": o.Time, "solver": o.Solver})
+	}
+	return out
 }
